@@ -44,9 +44,9 @@ theorem sweepCore_start (c : Cfg α) (b : St α) (hn : 2 ≤ c.n) (hs : SweepSta
     ∃ recs rest, sweepCore c b = .ok (b, recs)
       ∧ recs.map Rec.ev = .sweep b.step b.cur b.tgt :: rest ∧ ∀ e ∈ rest, IsPlainCall e := by
   by_cases h2 : c.n = 2
-  · refine ⟨_, _, two_site_step c b h2 hs, rfl, ?_⟩
+  · refine ⟨_, [.pair 0 (b.tgt - b.cur) false], two_site_step c b h2 hs, rfl, ?_⟩
     intro e he
-    simp only [List.map_cons, List.map_nil, List.mem_cons, List.not_mem_nil, or_false] at he
+    rw [List.mem_singleton] at he
     subst he; trivial
   · obtain ⟨recs, h, hm, _⟩ := one_step_sequence c b (by omega) hs
     exact ⟨recs, _, h, hm, plain_symSeq _ _⟩
@@ -87,9 +87,7 @@ theorem sweeps_append (l1 l2 : List (Rec α)) : sweeps (l1 ++ l2) = sweeps l1 ++
 
 theorem filterMap_evs {β : Type} (f : Ev α → Option β) (l : List (Rec α)) :
     l.filterMap (fun r => f r.ev) = (l.map Rec.ev).filterMap f := by
-  induction l with
-  | nil => rfl
-  | cons a l ih => simp [List.filterMap_cons, ih]
+  rw [List.filterMap_map]; rfl
 
 theorem plain_filter {β : Type} (f : Ev α → Option β) (hf : ∀ e, IsPlainCall e → f e = none)
     (rest : List (Ev α)) (h : ∀ e ∈ rest, IsPlainCall e) : rest.filterMap f = [] := by
@@ -121,5 +119,173 @@ theorem sweep_part (b : St α) (recs : List (Rec α)) (rest : List (Ev α))
   · rw [sweeps, filterMap_evs, hm, List.filterMap_cons]
     simp only [sweepOf]
     rw [plain_filter _ sweepOf_plain rest hp]
+
+
+/-! ### Invariants of the noisy run -/
+
+structure GridOk (c : Cfg α) : Prop where
+  n2 : 2 ≤ c.n
+  grid : Grid c
+  mono : ∀ (i : Nat) (a b : α), c.times[i]? = some a → c.times[i + 1]? = some b → a ≤ b
+
+/-- What is known about an open root search `r` in a step `[tk, tk1]`: it is the state handed
+back by `get_next_abscissa` from a bracket state `r0` that satisfies C19's `Good` inside the
+step, the abscissa asked for is the current `target_time`, and `current_time` is in the hull. -/
+def SearchInv (tk tk1 : α) (b : St α) (r : Brent.St α) : Prop :=
+  ∃ r0 L H w, Good L H w r0 ∧ r = (getNext r0).1 ∧ b.tgt = (getNext r0).2 ∧ tk ≤ L ∧ H ≤ tk1
+    ∧ L ≤ b.cur ∧ b.cur ≤ H
+
+structure NInv (c : Cfg α) (s : NSt α) : Prop where
+  start : SweepStart c s.base
+  stepLe : s.base.step ≤ c.nsteps
+  fin : c.nsteps ≤ s.base.step → s.rf = none
+  live : s.base.step < c.nsteps → ∃ tk tk1, c.times[s.base.step]? = some tk
+      ∧ c.times[s.base.step + 1]? = some tk1 ∧ tk ≤ tk1
+      ∧ (s.rf = none → s.base.tgt = tk1 ∧ tk ≤ s.base.cur ∧ s.base.cur ≤ tk1)
+      ∧ (∀ r, s.rf = some r → SearchInv tk tk1 s.base r)
+
+/-- `provide_ordinate(x, y)` makes `x` an end of the bracket, with ordinate `y`. -/
+theorem provide_endpoint (r : Brent.St α) (x y : α) :
+    ((provide r x y).a = x ∧ (provide r x y).fa = y) ∨ ((provide r x y).b = x ∧ (provide r x y).fb = y) := by
+  unfold provide
+  rcases updateInterval_cases r x y with ⟨e, _⟩ | ⟨e, _⟩ <;> rw [e]
+  · rcases swap_cases ({ r with b := x, fb := y } : Brent.St α) with ⟨e2, _⟩ | ⟨e2, _⟩ <;> rw [e2]
+    · right; exact ⟨rfl, rfl⟩
+    · left; exact ⟨rfl, rfl⟩
+  · rcases swap_cases ({ r with a := x, fa := y } : Brent.St α) with ⟨e2, _⟩ | ⟨e2, _⟩ <;> rw [e2]
+    · left; exact ⟨rfl, rfl⟩
+    · right; exact ⟨rfl, rfl⟩
+
+/-- What a jump comes with: a bracket `r1` inside the step, narrower than the 1 ns tolerance,
+with a sign change of the gap, one of whose ends is the jump time with the gap just measured
+there. -/
+def JumpFacts (tk tk1 t g : α) : Prop :=
+  ∃ r1 : Brent.St α, ((r1.a = t ∧ r1.fa = g) ∨ (r1.b = t ∧ r1.fb = g)) ∧ |r1.b - r1.a| < 1
+    ∧ r1.fa * r1.fb ≤ 0 ∧ tk ≤ min r1.a r1.b ∧ max r1.a r1.b ≤ tk1
+
+/-- The four things a completed sweep can be. -/
+inductive Outcome (c : Cfg α) (s : NSt α) (e : Env α) (s' : NSt α) (evs : List (Rec α)) : Prop where
+  | done (h0 : s.rf = none) (h1 : s'.rf = none) (hs : s'.base.step = s.base.step + 1)
+      (hm : marks evs = [.fill (c.times.getD (s.base.step + 1) 0), .done s.base.step])
+      (hj : jumps evs = []) (hg : ¬ e.sq - s.thr < 0)
+  | opened (h0 : s.rf = none) (h1 : s'.rf.isSome = true) (hs : s'.base.step = s.base.step)
+      (hm : marks evs = []) (hj : jumps evs = []) (hg : e.sq - s.thr < 0)
+  | cont (h0 : s.rf.isSome = true) (h1 : s'.rf.isSome = true) (hs : s'.base.step = s.base.step)
+      (hm : marks evs = []) (hj : jumps evs = [])
+  | jumped (h0 : s.rf.isSome = true) (h1 : s'.rf = none) (hs : s'.base.step = s.base.step)
+      (hm : marks evs = []) (hj : jumps evs = [s.base.tgt])
+      (hf : ∃ tk tk1, c.times[s.base.step]? = some tk ∧ c.times[s.base.step + 1]? = some tk1
+              ∧ JumpFacts tk tk1 s.base.tgt (e.sq - s.thr))
+
+theorem marks_pre (c : Cfg α) (b : St α) : marks (preRecs c b) = [] := by
+  unfold preRecs; split <;> simp [marks, markOf, St.snap]
+theorem jumps_pre (c : Cfg α) (b : St α) : jumps (preRecs c b) = [] := by
+  unfold preRecs; split <;> simp [jumps, jumpOf, St.snap]
+theorem sweeps_pre (c : Cfg α) (b : St α) : sweeps (preRecs c b) = [] := by
+  unfold preRecs; split <;> simp [sweeps, sweepOf, St.snap]
+
+/-- `NoisyMPSBackendImpl.sweep_complete`, case by case. -/
+theorem nsc_cases (c : Cfg α) (hc : GridOk c) (s : NSt α) (e : Env α) (hi : NInv c s)
+    (hlive : s.base.step < c.nsteps) :
+    (∃ err, nsweepComplete c s e = .error err) ∨
+    ∃ s' evs, nsweepComplete c s e = .ok (s', evs) ∧ NInv c s' ∧ sweeps evs = []
+      ∧ Outcome c s e s' evs := by
+  obtain ⟨tk, tk1, htk, htk1, hle, hnone, hsome⟩ := hi.live hlive
+  have hst := hi.start
+  have hn2 := hc.n2
+  unfold nsweepComplete
+  cases hrf : s.rf with
+  | none =>
+    obtain ⟨htgt, hcl, hcu⟩ := hnone hrf
+    simp only
+    by_cases hg : e.sq - s.thr < 0
+    · -- a search is opened
+      simp only [hg, if_true]
+      unfold openSearch
+      cases hin : Brent.init s.base.cur s.base.tgt s.gap (e.sq - s.thr) 1 with
+      | none => left; exact ⟨_, rfl⟩
+      | some r0 =>
+        simp only
+        by_cases hz : divZero r0 = true
+        · left; simp [hz]
+        · right
+          simp only [hz, Bool.false_eq_true, if_false]
+          have hgood := good_init hin
+          refine ⟨_, _, rfl, ⟨⟨hst.l2r, hst.sweep, hst.lb, hst.rb, hst.centre⟩, hi.stepLe, ?_, ?_⟩, rfl,
+            .opened hrf rfl rfl rfl rfl hg⟩
+          · intro h; exact absurd hlive (by simpa using Nat.not_lt.mpr h)
+          · intro _
+            refine ⟨tk, tk1, htk, htk1, hle, fun h => by simp at h, ?_⟩
+            intro r hr
+            simp only [Option.some.injEq] at hr
+            subst hr
+            refine ⟨r0, s.base.cur, s.base.tgt, _, hgood, rfl, rfl, hcl, by rw [htgt], ?_, le_refl _⟩
+            show s.base.cur ≤ s.base.tgt
+            rw [htgt]; exact hcu
+    · -- the step completes
+      simp only [hg, if_false]
+      right
+      have hgetD : c.times.getD (s.base.step + 1) 0 = tk1 := by
+        rw [List.getD_eq_getElem?_getD, htk1]; rfl
+      by_cases hnext : s.base.step + 1 < c.nsteps
+      · have hlt : s.base.step + 2 < c.times.length := by have := hc.grid; unfold Grid at this; omega
+        have ht2 : c.times[s.base.step + 2]? = some c.times[s.base.step + 2] := List.getElem?_eq_getElem hlt
+        have hcont := timestepComplete_cont c { s.base with cur := s.base.tgt } _ hn2 hnext ht2
+        rw [hcont]
+        refine ⟨_, _, rfl, ⟨⟨hst.l2r, hst.sweep, rfl, by show c.n - 1 + 1 = c.n; omega, hst.centre⟩,
+          by show s.base.step + 1 ≤ c.nsteps; omega, fun _ => rfl, ?_⟩, ?_, .done hrf rfl rfl ?_ ?_ hg⟩
+        · intro _
+          refine ⟨tk1, c.times[s.base.step + 2], htk1, ht2, hc.mono _ _ _ htk1 ht2,
+            fun _ => ⟨rfl, ?_, ?_⟩, fun r hr => by simp at hr⟩
+          · show tk1 ≤ s.base.tgt; rw [htgt]
+          · show s.base.tgt ≤ c.times[s.base.step + 2]; rw [htgt]; exact hc.mono _ _ _ htk1 ht2
+        · rw [sweeps_append, sweeps_pre]; simp [sweeps, sweepOf, St.snap]
+        · rw [marks_append, marks_pre, hgetD, ← htgt]; simp [marks, markOf, St.snap]
+        · rw [jumps_append, jumps_pre]; simp [jumps, jumpOf, St.snap]
+      · have hlast := timestepComplete_last c { s.base with cur := s.base.tgt } hnext
+        rw [hlast]
+        refine ⟨_, _, rfl, ⟨⟨hst.l2r, hst.sweep, hst.lb, hst.rb, hst.centre⟩,
+          by show s.base.step + 1 ≤ c.nsteps; omega, fun _ => rfl, ?_⟩, ?_, .done hrf rfl rfl ?_ ?_ hg⟩
+        · intro h; exact absurd (show s.base.step + 1 < c.nsteps from h) hnext
+        · rw [sweeps_append, sweeps_pre]; simp [sweeps, sweepOf, St.snap]
+        · rw [marks_append, marks_pre, hgetD, ← htgt]; simp [marks, markOf, St.snap]
+        · rw [jumps_append, jumps_pre]; simp [jumps, jumpOf, St.snap]
+  | some r =>
+    obtain ⟨r0, L, H, w, hgood, hr, htgt, hL, hH, hcl, hcu⟩ := hsome r hrf
+    simp only
+    have hstep := good_step r0 (e.sq - s.thr) hgood
+    subst hr
+    rw [← htgt] at hstep
+    obtain ⟨hg1, hx1, hx2⟩ := hstep
+    by_cases hconv : isConverged (provide (getNext r0).1 s.base.tgt (e.sq - s.thr)) 1 = true
+    · -- the search has converged: jump
+      simp only [hconv, if_true]
+      have h2 : ¬ c.n < 2 := by omega
+      simp only [doJump, initBaths, h2, if_false, htk1]
+      right
+      refine ⟨_, _, rfl, ⟨⟨hst.l2r, hst.sweep, rfl, by show c.n - 1 + 1 = c.n; omega, rfl⟩, hi.stepLe,
+        fun _ => rfl, ?_⟩, by simp [sweeps, sweepOf, St.snap],
+        .jumped (by simp [hrf]) rfl rfl (by simp [marks, markOf, St.snap]) (by simp [jumps, jumpOf, St.snap])
+          ⟨tk, tk1, htk, htk1, _, ?_, ?_, hg1.inv.sign, le_trans hL hg1.loL, le_trans hg1.hiH hH⟩⟩
+      · intro _
+        refine ⟨tk, tk1, htk, htk1, hle, fun _ => ⟨rfl, le_trans hL hx1, le_trans hx2 hH⟩,
+          fun r hr => by simp at hr⟩
+      · exact provide_endpoint _ _ _
+      · simpa [isConverged, absv_eq_abs] using hconv
+    · -- one more abscissa
+      simp only [hconv, Bool.false_eq_true, if_false]
+      by_cases hz : divZero (provide (getNext r0).1 s.base.tgt (e.sq - s.thr)) = true
+      · left; simp [hz]
+      · right
+        simp only [hz, Bool.false_eq_true, if_false]
+        refine ⟨_, _, rfl, ⟨⟨hst.l2r, hst.sweep, hst.lb, hst.rb, hst.centre⟩, hi.stepLe, ?_, ?_⟩, rfl,
+          .cont (by simp [hrf]) rfl rfl rfl rfl⟩
+        · intro h; exact absurd hlive (by simpa using Nat.not_lt.mpr h)
+        · intro _
+          refine ⟨tk, tk1, htk, htk1, hle, fun h => by simp at h, ?_⟩
+          intro r' hr'
+          simp only [Option.some.injEq] at hr'
+          subst hr'
+          exact ⟨_, L, H, w, hg1, rfl, rfl, hL, hH, hx1, hx2⟩
 
 end EmuVerif.Stepper
